@@ -30,6 +30,7 @@ RF2 == <<"rdataset", "rrset">>
 TF1 == <<"rdataset">>
 TF2 == <<"rdata", "rdataset">>
 TF3 == <<"rdata", "rdataset", "rrset">>
+R30 == 0..29
 
 Pick(seq) == IF Rotate THEN {seq[((rot + nops) % Len(seq)) + 1]} ELSE {seq[i] : i \in 1..Len(seq)}
 Spellings == Pick(SpSeq)
